@@ -116,6 +116,10 @@ def conversion(args):
         t4_output_filename = Path(args.output)
     else:
         t4_output_filename = Path(args.input).with_suffix('.t4')
+    if t4_output_filename.resolve() == Path(args.input).resolve():
+        raise ValueError(f'the output file {str(t4_output_filename)!r} is the '
+                         'MCNP input file itself; please choose another name '
+                         'with the -o option')
 
     try:
         mcnp_parser = mip.MIP(args.input, encoding=args.encoding)
